@@ -15,11 +15,14 @@ from mc import dcatalog as DC
 from mc.common import bump, new_result
 from mc.harness import Caller, dev_signature, knots_for
 from mc.numerics import rows_1dev
+from mc.params import pat_tensor
+from nflows import transforms as T
 
 PROPERTY = "C19"
 RULE = (
     "subject x config (<=1 deviation; thorough <=2) x pattern x 1-deviation rows of the C01/C02 cell alphabets rounded to float32, "
-    "forward direction on the input alphabet and inverse direction on the float32-rounded twin images; flows: log_prob rows; plus wide (32-96 feature) linear/normalisation/autoregressive layers. "
+    "forward direction on the input alphabet and inverse direction on the float32-rounded twin images; flows: log_prob rows; plus wide (32-96 feature) linear/normalisation/autoregressive layers; plus the data-dependent first training-mode call "
+    "of ActNorm (2-D, image) and BatchNorm on batches offset + spread*pattern for 5 (offset, spread) pairs up to 50 +- 0.01, followed by eval forward and inverse. "
     "Non-trivial = the float64 twin result differs from the float32 result (rounding visible) or the row has a non-interior cell."
 )
 ASSUMPTIONS = [
@@ -238,6 +241,106 @@ def run_flow_case(dname, cfg, pname, seed, tier, res=None):
     return vio
 
 
+NORM_DATA = [(0.0, 1.0), (-3.0, 0.5), (20.0, 1.0), (20.0, 0.02), (50.0, 0.01)]  # (offset, spread) of the batch fed to the first training-mode call
+NORM_LAYERS = [("ActNorm", (3,)), ("ActNorm", (2, 2, 3)), ("ActNorm", (1, 1, 4)), ("BatchNorm", (3,)), ("BatchNorm", (1,))]
+
+
+def _norm_build(layer, shape):
+    torch.manual_seed(0)
+    return T.ActNorm(shape[0]) if layer == "ActNorm" else T.BatchNorm(shape[0])
+
+
+def run_norm_train_case(layer, shape, offset, spread, seed, res=None):
+    """the data-dependent first call in training mode (ActNorm initialisation, BatchNorm batch statistics): variance formulas are
+    cancellation-prone when the batch mean is large against its spread; float32 against a float64 twin fed the same float32 numbers"""
+    import copy
+    vio = []
+    B = 6 if len(shape) == 1 else 3
+    xp = offset + spread * pat_tensor((B,) + tuple(shape), 3 + seed, 1.0, dtype=torch.float64)
+    x32 = xp.float()
+    x64 = x32.double()
+    m32 = _norm_build(layer, shape)
+    fresh64 = copy.deepcopy(m32).double()
+    m64 = copy.deepcopy(fresh64)
+    m32.train(); m64.train()
+    key = "%s|train-first-call,shape=%s|offset=%g,spread=%g" % (layer, "x".join(map(str, shape)), offset, spread)
+    case = {"norm": layer, "shape": list(shape), "offset": offset, "spread": spread, "seed": seed}
+
+    def v(sym, msg):
+        vio.append({"key": key + "|" + sym, "case": case, "msg": "%s shape %s, batch of %d rows = %g + %g*pattern: %s" % (layer, list(shape), B, offset, spread, msg)})
+
+    delta = 64 * EPS * max(1.0, float(x64.abs().max()))
+    mean = x64.mean(dim=0, keepdim=True) if len(shape) == 1 else x64.mean(dim=(0, 2, 3), keepdim=True)
+    perts = [torch.full_like(x64, delta), torch.full_like(x64, -delta), delta * torch.sign(x64 - mean), -delta * torch.sign(x64 - mean),
+             delta * torch.sign(pat_tensor(tuple(x64.shape), 11, 1.0, dtype=torch.float64)), -delta * torch.sign(pat_tensor(tuple(x64.shape), 11, 1.0, dtype=torch.float64))]
+    for phase in ("train", "eval", "eval-inverse"):
+        try:
+            with torch.no_grad():
+                if phase == "train":
+                    y64, l64 = m64(x64)
+                elif phase == "eval":
+                    m64.eval()
+                    y64, l64 = m64(x64)
+                else:
+                    y64, l64 = m64.inverse(y64keep)
+        except Exception:
+            if res is not None:
+                bump(res["skipped"], "twin raises (other properties)")
+            return vio
+        if phase == "train":
+            y64keep = y64
+        if res is not None:
+            res["evaluations"] += 1
+            res["states"] += 1
+            res["transitions"] += 1
+            res["traces"] += 1
+            res["nontrivial"] += 1
+        try:
+            with torch.no_grad():
+                if phase == "train":
+                    y32, l32 = m32(x32)
+                elif phase == "eval":
+                    m32.eval()
+                    y32, l32 = m32(x32)
+                else:
+                    y32, l32 = m32.inverse(y64keep.float())
+        except Exception as e:
+            v("float32 raises %s" % type(e).__name__, "%s call in float32 raised %s: %s (the float64 twin returns finite values)" % (phase, type(e).__name__, str(e)[:100]))
+            break
+        if y32.dtype != torch.float32 or l32.dtype != torch.float32:
+            v("result dtype differs from input dtype (float32 in)", "%s call returned %s / %s" % (phase, y32.dtype, l32.dtype))
+        if y64.dtype != torch.float64 or l64.dtype != torch.float64:
+            v("result dtype differs from input dtype (float64 in)", "%s call returned %s / %s" % (phase, y64.dtype, l64.dtype))
+        if not (bool(torch.isfinite(y32).all()) and bool(torch.isfinite(l32).all())):
+            v("float32 non-finite", "%s call returned non-finite values in float32 (float64 twin finite)" % phase)
+            break
+        # measured conditioning: the float64 twin (fresh copy, same history) on batches perturbed by 64 float32 ulps
+        vy = vl = 0.0
+        for pt in perts:
+            mp = copy.deepcopy(fresh64)
+            mp.train()
+            with torch.no_grad():
+                yp, lp = mp(x64 + pt)
+                if phase != "train":
+                    mp.eval()
+                    yp, lp = mp(x64 + pt) if phase == "eval" else mp.inverse(y64keep + pt * float(y64keep.abs().max() + 1) / max(1.0, float(x64.abs().max())))
+            vy = max(vy, float((yp - y64).abs().max()))
+            vl = max(vl, float((lp - l64).abs().max()))
+        c = 2 ** 10 * EPS
+        D = int(np.prod(shape))
+        by = c * (1 + float(y64.abs().max())) + 4 * vy
+        bl = c * (1 + float(l64.abs().max())) * max(1, D) ** 0.5 + 4 * vl
+        dy = float((y32.double() - y64).abs().max())
+        dl = float((l32.double() - l64).abs().max())
+        if res is not None:
+            bump(res["outcomes"], "norm-train:%s:%s" % (phase, "violation" if (dy > by or dl > bl) else "ok"))
+        if dy > by:
+            v("float32 outputs inaccurate", "%s call: float32 outputs differ from float64 by %.3g (band %.3g, measured variation %.3g)" % (phase, dy, by, vy))
+        if dl > bl:
+            v("float32 logabsdet inaccurate", "%s call: float32 logabsdet differs from float64 by %.3g (band %.3g, measured variation %.3g)" % (phase, dl, bl, vl))
+    return vio
+
+
 def units(tier, seed):
     k = 1 if tier == "quick" else 2
     us = [("t", name, cfg, tier, seed) for name, s in C.SUBJECTS.items() for cfg in C.enum_configs(s, k)]
@@ -250,12 +353,16 @@ def units(tier, seed):
             cfg.update(over)
             cfg["_wide"] = wide
             us.append(("t", name, cfg, tier, seed))
+    us += [("n", layer, {"shape": list(shape), "offset": o, "spread": sp}, tier, seed) for layer, shape in NORM_LAYERS for o, sp in NORM_DATA]
     return us
 
 
 def run_unit(unit):
     kind, name, cfg, tier, seed = unit
     res = new_result()
+    if kind == "n":
+        res["violations"].extend(run_norm_train_case(name, tuple(cfg["shape"]), cfg["offset"], cfg["spread"], seed, res))
+        return res
     if kind == "t":
         pats = C.SUBJECTS[name].patterns if not cfg.get("_wide") else ("init", "patS")
         for pname in pats:
@@ -267,6 +374,8 @@ def run_unit(unit):
 
 
 def replay(case):
+    if "norm" in case:
+        return run_norm_train_case(case["norm"], tuple(case["shape"]), case["offset"], case["spread"], case["seed"], None)
     if "dist" in case:
         return [v for v in run_flow_case(case["dist"], case["cfg"], case["pattern"], case["seed"], "quick", None) if v["case"]["row_index"] == case["row_index"]]
     return run_case(case["subject"], case["cfg"], case["pattern"], case["seed"], "quick", None, only=case)
